@@ -15,6 +15,8 @@ import RxModel.Props.C06
 import RxModel.Props.Findings
 import RxModel.Props.Clean
 import RxModel.Spec.Enum2
+import RxModel.Props.C03b
+import RxModel.Proofs.C03cTree
 import RxModel.Props.C11b
 import RxModel.Proofs.PreLemmas
 import Std.Data.HashMap
@@ -24,7 +26,7 @@ open Rx
 inductive SExp where
   | atom (s : String)
   | list (xs : List SExp)
-deriving Repr, Inhabited
+deriving Inhabited
 
 partial def parseSExps (toks : List String) (acc : List SExp) : List SExp × List String :=
   match toks with
@@ -189,6 +191,9 @@ def wfReport (pr : Prog) (len : Nat) : String :=
   s!"facts={b facts},br={b (!hasBackref pr.op || pr.hasBackrefs)},prewf={b (pr.pres.all (fun q => wfOp q.op))}," ++
   -- the fragment of the full-strength theorems (Props/Clean, SearchComplete), their extra hypothesis, and the class
   -- hypothesis of the case-invariance theorems (Props/C11b; alphabet = everything but U+0130)
+  -- the straight-line capture fragment of C03b / C03c (groups and back-references not under a quantifier or inside an
+  -- alternative), incl. agreement of the nesting table computed from the pattern text with the tree
+  s!"straight={b (C03b.progOK pr.hasBackrefs pr.maxParens pr.op && (match nestingTable pr.pattern with | some tbl => tblOK tbl pr.op 0 | none => false))}," ++
   s!"clean2={b (cleanProg2 envFast pr.caseBlind pr.multiLine pr.op && clsCanonB pr.op && !pr.hasBackrefs)}," ++
   s!"clean={b (cleanOp pr.op && !pr.hasBackrefs)},nea={b (C08.noEmptyAtoms pr.op)},cicl={b (!pr.caseBlind || C11b.allClsB (C11b.clsClosedOnB (fun c => c != 304)) pr.op)}"
 
